@@ -249,5 +249,10 @@ theorem frame_step {cfg : Cfg} {s s' : St} {a : Act}
     split at hs
     · cases hs; exact frame_cleanFiles _ _
     · cases hs
+  | findErrRelease i fs =>
+    simp only [step] at hs
+    split at hs
+    · cases hs; constructor <;> simp
+    · cases hs
 
 end LinVerif.Lemmas.C02
